@@ -1,5 +1,6 @@
 import PyPhysim.Model.Proto
 import PyPhysim.Model.C04
+import PyPhysim.Model.C04Obj
 open PyPhysim.Proto PyPhysim.C04
 
 /-!
@@ -66,7 +67,98 @@ def showE {β} (f : β → String) : Except PyErr β → String
 
 def nats : List String → Option (List Nat) := fun l => l.mapM String.toNat?
 
+/-! ### object histories (`Model/C04Obj.lean`) -/
+
+def parseCAny (s : String) : Option (Array CF) := do
+  let fs ← parseFloatList? (emptyOk s)
+  let ps ← pairs fs
+  some ps.toArray
+
+def parseScheme : String → Option Scheme
+  | "blast" => some .blast | "mrc" => some .mrc | "mrt" => some .mrt
+  | "svd" => some .svd | "gmd" => some .gmd | "alamouti" => some .alamouti
+  | _ => none
+
+/-- `v:<n>:<data>` or `m:<nr>:<nt>:<data>` -/
+def parseChanArg (s : String) : Option (ChanArg CF) :=
+  match s.splitOn ":" with
+  | ["v", n, d] => do
+      let n ← n.toNat?
+      let xs ← parseC n d
+      some (.vec n (toVec n xs))
+  | ["m", nr, nt, d] => do
+      let nr ← nr.toNat?
+      let nt ← nt.toNat?
+      let xs ← parseC (nr * nt) d
+      some (.mat nr nt (toMat nr nt xs))
+  | _ => none
+
+/-- the kernels of one step: constant functions returning the recorded results
+    (`key=<data>` fields; absent kernels return zeros and are not used by the step) -/
+def kernelsOf (fields : List String) : Kernels CF :=
+  let get (k : String) : Array CF :=
+    match kv fields k with
+    | some d => (parseCAny d).getD #[]
+    | none => #[]
+  { pinv := fun {m n} _ => toMat n m (get "pinv")
+    solve := fun {n m} _ _ => toMat n m (get "solve")
+    svdVH := fun {_ n} _ => toMat n n (get "vh")
+    svdU := fun {m n} _ => toMat m (min m n) (get "u")
+    svdS := fun {m n} _ => toVec (min m n) (get "s")
+    gmdQ := fun {m _} _ => toMat m m (get "q")
+    gmdR := fun {m n} _ => toMat m n (get "r")
+    gmdP := fun {_ n} _ => toMat n n (get "p") }
+
+def parseOp (tok : String) : Option (Op CF × Kernels CF) :=
+  let fs := tok.splitOn ";"
+  let K := kernelsOf fs
+  match fs with
+  | "sc" :: c :: _ => (parseChanArg c).map (fun c => (.setChannel c, K))
+  | "nv" :: v :: _ =>
+      if v = "none" then some (.setNoiseVar none, K)
+      else (parseC 1 v).map (fun a => (.setNoiseVar (some (a.getD 0 0)), K))
+  | "enc" :: n :: x :: _ => do
+      let n ← n.toNat?
+      let xs ← parseC n x
+      some (.encode n (toVec n xs), K)
+  | "dec" :: nr :: l :: y :: _ => do
+      let nr ← nr.toNat?
+      let l ← l.toNat?
+      let ys ← parseC (nr * l) y
+      some (.decode nr l (toMat nr l ys), K)
+  | "flt" :: v :: _ => (parseC 1 v).map (fun a => (.filters (a.getD 0 0), K))
+  | "sinr" :: v :: _ => (parseC 1 v).map (fun a => (.sinr (a.getD 0 0), K))
+  | _ => none
+
+def showOut : Out CF → String
+  | .err e => "error:" ++ toString e
+  | .done => "done"
+  | .mat m n A => "mat:" ++ toString m ++ ":" ++ toString n ++ ":" ++ showMat A
+  | .vec n v => "vec:" ++ toString n ++ ":" ++ showVec v
+  | .two m n A p q B => "two:" ++ toString m ++ ":" ++ toString n ++ ":" ++ showMat A ++ ":" ++
+      toString p ++ ":" ++ toString q ++ ":" ++ showMat B
+
+/-- run a history on the model object, one reply field per operation -/
+def runHist (o : Obj CF) : List String → List String → Option (List String)
+  | [], acc => some acc.reverse
+  | tok :: rest, acc =>
+      match parseOp tok with
+      | none => none
+      | some (op, K) =>
+          let (o', out) := step K o op
+          runHist o' rest (showOut out :: acc)
+
 def handle : List String → String
+  -- hist scheme chanarg op op ...  ->  constructor outcome | one field per op
+  | "hist" :: sch :: c :: ops => Id.run do
+      let some s := parseScheme sch | return "bad-op"
+      let some ca := parseChanArg c | return "bad-op"
+      match construct s ca with
+      | .error e => return "error:" ++ toString e
+      | .ok o =>
+          match runHist o ops [] with
+          | some outs => return "|".intercalate ("ok" :: outs)
+          | none => return "bad-op"
   -- mmseargs Nr Nt H nv -> lhs | rhs   (the two arguments of np.linalg.solve)
   | ["mmseargs", nr, nt, h, nv] => Id.run do
       let some [nr, nt] := nats [nr, nt] | return "bad-op"
